@@ -25,6 +25,8 @@ LAYOUTS = ["C", "F", "strided", "readonly"]
 def plan(tier, seed):
     q = tier == "quick"
     specs = ec.plan_e2e(seed, 5, MIX, 60 if q else 600, nwcap=12 if q else 24)
+    if not q:
+        specs += ec.fixture_specs()
     for p, n in enumerate(common.split_counts(280 if q else 4600, 10 if q else 20)):
         specs.append(dict(name="synth-%d" % p, mode="interp", what="synth", n=n, seed=[seed, 55, p]))
     specs.append(dict(name="synth-jit", mode="jit", what="synth", n=40 if q else 300, seed=[seed, 56, 0], jit=True))
@@ -145,7 +147,7 @@ def gen_desc(rng, spec, i):
 
 def run_shard(spec, res):
     res.counters["numba_state"] = str(common.numba_state())
-    if spec["what"] == "e2e":
+    if spec["what"] in ("e2e", "fixture"):
         ec.run_e2e_shard(spec, res, PROPS, lambda run, I: "t" if I.counts.get("table_entries_checked", 0) else None)
         return
     rng = np.random.default_rng(spec["seed"])
